@@ -1,6 +1,11 @@
 use crate::core::Prop;
 pub mod c02;
+pub mod c03;
+pub mod c04;
+pub mod c05;
+pub mod c06;
+pub mod c07;
 
 pub fn all() -> Vec<Prop> {
-    vec![c02::prop()]
+    vec![c02::prop(), c03::prop(), c04::prop(), c05::prop(), c06::prop(), c07::prop()]
 }
